@@ -9,6 +9,7 @@
 package main
 
 import (
+	"bytes"
 	"encoding/json"
 	"fmt"
 	"os"
@@ -93,6 +94,20 @@ func build(path []partlib.Op) (*wld, string, string) {
 		snap, err := b.P.Snapshot()
 		if err != nil {
 			return w, "snapshot-error", fmt.Sprintf("cut %d: snapshot failed: %v", c, err)
+		}
+		if c < len(path) {
+			// B goes on (applies the rest and snapshots again) while the first snapshot's bytes are still in use - the log
+			// store keeps them and the raft message that carries them is marshalled later: they must stay what they were
+			keep := append([]byte{}, snap...)
+			if _, k, d := applyAll(b, path, entries, c, "B"); k != "" {
+				return w, k, d
+			}
+			if _, err := b.P.Snapshot(); err != nil {
+				return w, "snapshot-error", fmt.Sprintf("cut %d: second snapshot failed: %v", c, err)
+			}
+			if !bytes.Equal(keep, snap) {
+				return w, "earlier-snapshot-bytes-changed", fmt.Sprintf("cut %d: the %d bytes returned by the snapshot at the cut were overwritten when the replica took its next snapshot", c, len(snap))
+			}
 		}
 		for _, role := range []string{"C-fresh", "D-used"} {
 			var r *partlib.Replica
